@@ -347,6 +347,7 @@ def run(rep, tier):
         clause_b(facts, rep)
         clause_c(facts, rep)
         clause_e(facts, rep)
+        clause_f(facts, rep)
         w = widest_load(facts)
         rep.require(w >= 16, 'C02.d: no vector load found in the padded scanners (%s)' % cfg)
         vec_len = widest_load(facts, ('quote.inc.h',))
@@ -439,3 +440,43 @@ def clause_e(facts, rep):
                           'the slot added by node() must be given a type (placement new / setLength / setType) before the event returns; '
                           'TearDown destroys every slot below np_', facts.config)
     rep.require(n >= 16, 'C02.e: only %d push-returns analysed' % n)
+
+
+def clause_f(facts, rep):
+    """per-parse scanner state: skip_space caches a block bitmap as offsets into the *current* buffer
+    (SkipScanner::nonspace_bits_end_/nonspace_bits_), and Parser::reset() does not clear it. Every
+    Parser / SkipScanner that a document or on-demand entry point uses must therefore be a fresh
+    function-local object (or be re-initialised): a parser object that outlives one parse carries
+    offsets of a freed buffer into the next."""
+    n = 0
+    for f in facts.functions:
+        for bid, i, s, e in f.walk():
+            if e.get('k') != 'call' or e.get('obj') is None:
+                continue
+            if e.get('ccls') == PARSER and e.get('cname') in ('Parse', 'ParseLazy') and f.cls_qn != PARSER:
+                o = strip(e['obj'])
+                n += 1
+                local = o is not None and o.get('k') == 'ref' and o.get('dk') == 'local'
+                rep.check(local, 'E7.fresh-parser', f.qn, show(e)[:80], locline(e['loc']),
+                          'the Parser object must be a function-local automatic variable (its white-space cache is only valid for one buffer)', facts.config)
+            if e.get('ccls') == 'sonic_json::internal::SkipScanner' and f.cls_qn not in (PARSER, 'sonic_json::internal::SkipScanner'):
+                o = strip(e['obj'])
+                n += 1
+                local = o is not None and o.get('k') == 'ref' and o.get('dk') == 'local'
+                rep.check(local, 'E7.fresh-parser', f.qn, show(e)[:80], locline(e['loc']),
+                          'the SkipScanner object must be a function-local automatic variable', facts.config)
+        rep.fn(f) if False else None
+    # inside Parser, the scanner is the by-value member of the (fresh) parser
+    for c in facts.classes:
+        if c['qn'] == PARSER:
+            sc = [x for x in c['fields'] if 'SkipScanner' in x['t']]
+            rep.check(len(sc) == 1 and '*' not in sc[0]['t'] and '&' not in sc[0]['t'], 'E7.fresh-parser', PARSER, 'scanner member %s' % [x['t'] for x in sc],
+                      locline(c['loc']), 'the scanner must be owned by value by the parser', facts.config)
+            n += 1
+            break
+    # and no static-storage Parser / SkipScanner anywhere
+    for s in facts.statics:
+        if 'Parser' in s['t'] or 'SkipScanner' in s['t']:
+            rep.fail('E7.fresh-parser', s.get('func') or s['qn'], 'static %s %s' % (s['t'], s['name']), locline(s['loc']),
+                     'a parser/scanner with static storage is shared by all parses', facts.config)
+    rep.require(n >= 4, 'C02.f: only %d parser entry call sites found' % n)
